@@ -7,6 +7,7 @@ package worlds
 import (
 	"fmt"
 	"math"
+	"strings"
 
 	"github.com/theparanoids/ysshra/keyid"
 	"golang.org/x/crypto/ssh"
@@ -63,7 +64,9 @@ func window(c SCert) (va, vb uint64) {
 // keyIDClasses maps a class to a KeyID text. The first group decodes as YSSHCA
 // KeyIDs (every certificate type), the second group are near misses and free text.
 var keyIDClasses = []string{"touchless", "touch", "cached", "hw_firefighter", "agent_firefighter", "nonce", "headless", "default_touch",
-	"missing_field", "version2", "inconsistent", "free_text", "empty", "empty_object", "json_array"}
+	"missing_field", "version2", "inconsistent", "free_text", "empty", "empty_object", "json_array",
+	// other spellings of the same JSON document (whether they decode is keyid.Unmarshal's verdict, see ident)
+	"touch_leading_space", "touchless_leading_newline", "touch_trailing_space", "touch_pretty", "touch_reordered", "touch_extra_field", "touch_escaped"}
 
 func keyIDText(class, role string) string {
 	base := func(ff, hw, hl, nonce bool, tp, ver int) string {
@@ -93,6 +96,22 @@ func keyIDText(class, role string) string {
 		return base(false, false, false, false, 1, 2)
 	case "inconsistent":
 		return base(false, true, true, false, 1, 1)
+	case "touch_leading_space":
+		return " " + base(false, true, false, false, 2, 1)
+	case "touchless_leading_newline":
+		return "\r\n\t" + base(false, false, false, false, 1, 1)
+	case "touch_trailing_space":
+		return base(false, true, false, false, 2, 1) + " \n"
+	case "touch_pretty":
+		return strings.NewReplacer(",", ",\n  ", "{", "{\n  ", "}", "\n}").Replace(base(false, true, false, false, 2, 1))
+	case "touch_reordered":
+		b := base(false, true, false, false, 2, 1)
+		return `{"ver":1,` + strings.TrimSuffix(b[1:], `,"ver":1}`) + "}"
+	case "touch_extra_field":
+		b := base(false, true, false, false, 2, 1)
+		return strings.TrimSuffix(b, "}") + `,"note":"x"}`
+	case "touch_escaped":
+		return strings.Replace(base(false, true, false, false, 2, 1), `"reqUser":"user"`, `"reqUser":"\u0075ser"`, 1)
 	case "empty":
 		return ""
 	case "empty_object":
